@@ -26,8 +26,27 @@ def tlc_json_lines(out, tag):
     return res
 
 
+_MM = re.compile(r'<<\s*"MISMATCH",\s*(\d+),\s*("(?:[^"\\]|\\.)*")\s*>>', re.S)
+
+
+def unwrap_mismatch_lines(ctx):
+    """TLC's pretty printer breaks a medium-long <<"MISMATCH", l, "..." >> tuple over several lines; vlib's
+    parser is line based. Re-join them in the output of every TLC run of this ctx (idempotent)."""
+    if getattr(ctx, "_mm_patched", False):
+        return
+    orig = ctx.tlc
+
+    def tlc(*a, **kw):
+        r = orig(*a, **kw)
+        r.out = _MM.sub(lambda m: '<<"MISMATCH", %s, %s>>' % (m.group(1), m.group(2)), r.out)
+        return r
+    ctx.tlc = tlc
+    ctx._mm_patched = True
+
+
 def validate_parallel(ctx, module, cfg, traces, shards=None, timeout=1200, family=None):
     """ctx.validate_traces over `shards` TLC processes. Returns the same tuples with global indices."""
+    unwrap_mismatch_lines(ctx)
     shards = max(1, min(shards or ctx.workers, len(traces)))
     ctx._specdir(family)  # create the scratch copy before threads race for it
     # round-robin sharding: expensive traces (large cases) are usually adjacent
